@@ -29,6 +29,34 @@ def _strip_pattern(body):
     return body
 
 
+def index_terms(goal, limit=12):
+    """Int-sorted terms used as sequence / array indices in the goal: instantiation candidates"""
+    out = []
+
+    def walk(sx):
+        if isinstance(sx, str) or not sx:
+            return
+        head = sx[0]
+        if head in ('at', 'select') and len(sx) == 3:
+            idx = sx[2]
+            if isinstance(idx, list) and idx and idx[0] == 'VI' and len(idx) == 2:
+                idx = idx[1]
+            t = smt._unparse(idx)
+            if not t.startswith('"') and not t.startswith('(V') and t not in ('VNone',) and \
+                    not re.fullmatch(r'[a-z_]*j(![0-9]+)?|k![0-9]+|v![0-9]+', t):
+                if t not in out:
+                    out.append(t)
+        if head in ('forall', 'exists'):
+            return
+        for c in sx[1:]:
+            walk(c)
+    try:
+        walk(smt.parse_sexpr(goal)[0])
+    except Exception:
+        return []
+    return out[:limit]
+
+
 def help_text(text, extra_terms=()):
     lines = text.split('\n')
     goal_i = None
@@ -55,6 +83,9 @@ def help_text(text, extra_terms=()):
     cands = list(extra_terms)
     for s in skolems:
         cands += [s, '(+ %s 1)' % s, '(- %s 1)' % s]
+    for t in index_terms(goal):
+        if t not in cands:
+            cands.append(t)
     extra = []
     if cands:
         for i, l in enumerate(lines):
